@@ -117,8 +117,9 @@ def check_fn(ctx, fn, rule="R8.partition", which=None):
         cells = 0
         start_name = None
         try:
-            for nprocs in range(1, 6):
-                for ln in range(0, 3 * nprocs + 3):
+            deep = getattr(ctx, 'tier', 'quick') == 'thorough'
+            for nprocs in range(1, 10 if deep else 6):
+                for ln in range(0, (5 if deep else 3) * nprocs + 3):
                     ivs = []
                     for rank in range(nprocs):
                         env = {len_name: ln, nprocs_name: nprocs, rank_name: rank}
